@@ -126,18 +126,22 @@ Qed.
 
 (* replacing the Page.v state / ghost table of one page preserves the invariant if the page stays valid *)
 Lemma put_page_inv m cs cp cp' : mem_inv m -> In cs m -> In cp (cs_pages cs) -> cp_idx cp' = cp_idx cp ->
+  reserved (cp_page cp') = reserved (cp_page cp) ->
   page_ok (cs_base cs) (get (entries (fst (cs_st cs))) (cp_idx cp)) cp' -> mem_inv (put_page m cs cp').
 Proof.
-  intros Hm Hcs Hcp Ei Hp. unfold put_page.
+  intros Hm Hcs Hcp Ei Er Hp. unfold put_page.
   apply (kset_inv m cs); try assumption; try reflexivity.
-  pose proof (seg_ok_In _ _ Hm Hcs) as (A1 & A2 & A3 & A4 & A5 & Hndp & A7 & A8 & A9).
+  pose proof (seg_ok_In _ _ Hm Hcs) as (A1 & A2 & A3 & A4 & A5 & Hndp & A7 & A8 & A9 & A10).
   assert (Hkp : In (cp_idx cp') (map cp_idx (cs_pages cs))) by (rewrite Ei; apply in_map; assumption).
   unfold seg_ok. cbn [set_pages cs_base cs_st cs_pages]. rewrite map_key_kset.
   split; [assumption|]. split; [assumption|]. split; [assumption|]. split; [assumption|].
-  split; [assumption|]. split; [assumption|]. split; [assumption|]. split; [|assumption].
-  intros cp2 Hcp2. apply (In_kset cp_idx _ cp' cp2 Hndp Hkp) in Hcp2 as [->|(Hcp2 & _)].
-  - rewrite Ei. assumption.
-  - apply A8. assumption.
+  split; [assumption|]. split; [assumption|]. split; [assumption|]. split; [|split; [assumption|]].
+  - intros cp2 Hcp2. apply (In_kset cp_idx _ cp' cp2 Hndp Hkp) in Hcp2 as [->|(Hcp2 & _)].
+    + rewrite Ei. assumption.
+    + apply A8. assumption.
+  - intros Hk cp2 Hcp2. apply (In_kset cp_idx _ cp' cp2 Hndp Hkp) in Hcp2 as [->|(Hcp2 & _)].
+    + rewrite Er. apply (A10 Hk). assumption.
+    + apply (A10 Hk). assumption.
 Qed.
 
 Lemma find_both m base idx cs cp : mem_inv m -> find_seg m base = Some cs -> find_page cs idx = Some cp ->
